@@ -971,7 +971,12 @@ Tokenizer_handle_heading_end(Tokenizer *self)
     }
     current = heading_level_from_context(self->topstack->context);
     level = current > best ? (best > 6 ? 6 : best) : (current > 6 ? 6 : current);
-    after = (HeadingData *) Tokenizer_parse(self, self->topstack->context, 1);
+    if (Tokenizer_CAN_RECURSE(self)) {
+        after = (HeadingData *) Tokenizer_parse(self, self->topstack->context, 1);
+    } else {
+        after = NULL;
+        FAIL_ROUTE(self->topstack->context);
+    }
     if (BAD_ROUTE) {
         RESET_ROUTE();
         if (level < best) {
